@@ -9,6 +9,7 @@ import (
 	"net/http"
 	"sort"
 	"strings"
+	"time"
 
 	"github.com/ipni/go-libipni/dhash"
 	findclient "github.com/ipni/go-libipni/find/client"
@@ -145,6 +146,16 @@ func runC12(r *simkit.Run, c Cfg) {
 		st.provs[p.ID.String()] = &model.ProviderInfo{AddrInfo: peer.AddrInfo{ID: p.ID, Addrs: []multiaddr.Multiaddr{must(multiaddr.NewMultiaddr("/ip4/8.8.8.8/tcp/3104"))}}}
 	}
 	byzantine := tp.Chance(2, 3, "byzantine")
+	// a provider record with extended providers but fewer metadata entries
+	// than providers (the field may be left out altogether): whatever the
+	// find makes of the extra provider, the indexed entries come back and
+	// nothing panics
+	xprov := KeyedIdentity("secp256k1", 1, "V8")
+	if byzantine && tp.Chance(1, 4, "shortExtended") {
+		pi := st.provs[provs[tp.Choose(len(provs), "shortExtended.p")].ID.String()]
+		pi.ExtendedProviders = &model.ExtendedProviders{Providers: []peer.AddrInfo{{ID: xprov.ID, Addrs: pi.AddrInfo.Addrs}}}
+		r.Fault("byzantine-extended-providers-without-metadata")
+	}
 	nmh := tp.Range(1, 4, "nmh")
 	index := map[string][]*dhEntry{}
 	usedPairs := map[string]bool{}
@@ -302,7 +313,27 @@ func runC12(r *simkit.Run, c Cfg) {
 	transportFaults := tp.Chance(1, 3, "transportFaults")
 	var cancelCur context.CancelFunc
 	cancelled := false
+	// faults of the caller's own making only: its context is cancelled, or
+	// its deadline passes, while a request is under way. Such a find returns
+	// an error or the complete answer, and leaves nothing behind that makes
+	// a later find incomplete.
+	ctxFaults := !transportFaults && tp.Chance(1, 3, "ctxFaults")
+	deadlineCur := false
+	ctxReq := map[*simkit.ReqRecord]bool{}
 	net.Policy = func(q *simkit.ReqRecord) simkit.FaultSpec {
+		if ctxFaults && cancelCur != nil && tp.Chance(1, 4, "ctxFault?") {
+			cancelled = true
+			ctxReq[q] = true
+			if deadlineCur {
+				cancelCur = nil
+				r.Fault("deadline")
+				return simkit.FaultSpec{Kind: simkit.FDelay, Delay: 5 * time.Minute}
+			}
+			cancelCur()
+			cancelCur = nil
+			r.Fault("cancel")
+			return simkit.FaultSpec{Kind: simkit.FHold}
+		}
 		if !transportFaults {
 			if tp.Chance(1, 5, "chunk?") {
 				return simkit.FaultSpec{Kind: simkit.FChunk, K: 1 + tp.Choose(9, "chunk")}
@@ -355,6 +386,11 @@ func runC12(r *simkit.Run, c Cfg) {
 				ctx, cancel := context.WithCancel(context.Background())
 				if conc == 1 {
 					cancelCur, cancelled = cancel, false
+					deadlineCur = ctxFaults && tp.Chance(1, 2, "deadline")
+					if deadlineCur {
+						cancel()
+						ctx, cancel = context.WithTimeout(context.Background(), 2*time.Second)
+					}
 				}
 				req0 := len(net.Requests())
 				resp, err := cl.Find(ctx, mh)
@@ -364,9 +400,14 @@ func runC12(r *simkit.Run, c Cfg) {
 				// a transport fault anywhere earlier may have left the
 				// provider cache with a negative entry for a provider
 				for _, q := range net.Requests() {
-					if !q.Fault.Benign() {
+					if !q.Fault.Benign() && !ctxReq[q] {
 						bad = true
 					}
+				}
+				if ctxFaults && err == nil && cancelled {
+					// it claims success: then the answer is the whole answer
+					bad = false
+					r.Probe("find-succeeded-although-its-context-ended")
 				}
 				if conc > 1 && transportFaults {
 					bad = true // cannot attribute transport faults to one of two concurrent finds
@@ -402,6 +443,9 @@ func runC12(r *simkit.Run, c Cfg) {
 				// twice; under transport faults entries may be missing.
 				wi := 0
 				for _, g := range got {
+					if g.Provider != nil && g.Provider.ID == xprov.ID {
+						continue // the extra provider of a malformed record
+					}
 					found := false
 					for wi < len(want) {
 						w := want[wi]
@@ -425,7 +469,13 @@ func runC12(r *simkit.Run, c Cfg) {
 						break
 					}
 				}
-				if !bad && !r.Failed() && len(got) != len(want) {
+				ngot := 0
+				for _, g := range got {
+					if g.Provider == nil || g.Provider.ID != xprov.ID {
+						ngot++
+					}
+				}
+				if !bad && !r.Failed() && ngot != len(want) {
 					r.Violate("c12.find", "find returned %d results, the plaintext index has %d untampered entries for that multihash", len(got), len(want))
 				}
 				if len(want) > 0 {
@@ -438,9 +488,18 @@ func runC12(r *simkit.Run, c Cfg) {
 	if out != "done" && out != "failed" {
 		r.Violate("c12.liveness", "finds did not complete (%s): a cancelled or failed find must return", out)
 	}
-	r.State(fmt.Sprintf("byz=%v tf=%v conc=%d", byzantine, transportFaults, conc))
+	r.State(fmt.Sprintf("byz=%v tf=%v cf=%v conc=%d", byzantine, transportFaults, ctxFaults, conc))
 	r.MarkEnd()
 	r.Advance(1)
+	if ctxFaults {
+		// delayed answers that nobody waits for any more are written out
+		r.Advance(6 * time.Minute)
+		r.PassThrough(true)
+		for _, p := range r.AllParked() {
+			r.Release(p, simkit.FaultSpec{})
+		}
+		r.Advance(time.Second)
+	}
 }
 
 func nres(r *model.FindResponse) int {
